@@ -81,6 +81,8 @@ func main() {
 		os.Exit(cmdCheck(os.Args[2:]))
 	case "selftest":
 		os.Exit(cmdSelftest())
+	case "ssa":
+		os.Exit(cmdSSA(os.Args[2:]))
 	default:
 		fmt.Println("unknown command", os.Args[1])
 		os.Exit(2)
@@ -177,7 +179,7 @@ func cmdCheck(args []string) int {
 		if !ok {
 			continue
 		}
-		jr := runJob(p, &js, params, *workers, *solver, *paranoid, allOverrides, *trace)
+		jr := runJob(p, &js, params, *workers, *solver, *paranoid, allOverrides, *trace, *verbose)
 		results = append(results, jr)
 		fmt.Printf("[%s/%s] paths=%d outcomes{%s} queries=%d solver=%.1fs quick=%d wall=%.1fs reach{%s}\n", *prop, js.Name, jr.Paths, outcomeString(jr.Outcomes), jr.Queries, jr.SolverS, jr.QuickDec, jr.WallS, outcomeString(jr.Reach))
 		problems = append(problems, jr.problems...)
@@ -424,7 +426,7 @@ func describePanic(e *Engine, r interface{}) string {
 	return fmt.Sprint(r)
 }
 
-func runJob(p *Program, js *JobSpec, params map[string]int64, workers int, solverBin string, paranoid int, overrides [][2]string, trace bool) *jobResult {
+func runJob(p *Program, js *JobSpec, params map[string]int64, workers int, solverBin string, paranoid int, overrides [][2]string, trace bool, verbose bool) *jobResult {
 	t0 := time.Now()
 	jr := &jobResult{Name: js.Name, Entry: js.Entry, Params: params, Bound: js.Bound, Outcomes: map[string]int{}, Reach: map[string]int{}, Unsupported: map[string]int{}, VioCounts: map[string]int{}, funcNames: map[string]int{}}
 	hpkg, entry := p.findEntry(js.Entry)
@@ -440,7 +442,7 @@ func runJob(p *Program, js *JobSpec, params map[string]int64, workers int, solve
 			return jr
 		}
 	}
-	sh := &Shared{prog: p.prog, params: params, job: js.Name, paranoid: paranoid, maxPaths: js.MaxPaths, overrides: map[string]extFn{}}
+	sh := &Shared{prog: p.prog, params: params, job: js.Name, paranoid: paranoid, verbose: verbose, maxPaths: js.MaxPaths, overrides: map[string]extFn{}}
 	sh.cond = sync.NewCond(&sh.mu)
 	for _, o := range overrides {
 		tgt, repl := p.byName[o[0]], p.byName[o[1]]
@@ -663,4 +665,46 @@ func writeEvidence(path string, spec *Spec, tier string, seed int64, results []*
 	if err := os.WriteFile(path, b, 0o644); err != nil {
 		fmt.Println("cannot write evidence:", err)
 	}
+}
+
+// cmdSSA prints the SSA of one function (debugging aid): gosx ssa -verif DIR -prop P -func NAME
+func cmdSSA(args []string) int {
+	fs := flag.NewFlagSet("ssa", flag.ExitOnError)
+	repo := fs.String("repo", "/repo/luahelper-lsp", "module directory")
+	verif := fs.String("verif", "/verif", "verification root")
+	prop := fs.String("prop", "", "property id")
+	fn := fs.String("func", "", "function name (as printed by ssa, or a suffix)")
+	fs.Parse(args)
+	hdir := filepath.Join(*verif, "harness", *prop)
+	var spec Spec
+	sb, err := os.ReadFile(filepath.Join(hdir, "spec.json"))
+	if err != nil {
+		fmt.Println(err)
+		return 2
+	}
+	json.Unmarshal(sb, &spec)
+	var hs []*harnessFile
+	for i, h := range spec.Harness {
+		hp := h
+		if !filepath.IsAbs(hp) {
+			hp = filepath.Join(hdir, h)
+		}
+		hf, err := readHarness(*repo, hp, i)
+		if err != nil {
+			fmt.Println(err)
+			return 2
+		}
+		hs = append(hs, hf)
+	}
+	p, err := loadProgram(*repo, hs)
+	if err != nil {
+		fmt.Println(err)
+		return 2
+	}
+	for name, f := range p.byName {
+		if name == *fn || strings.HasSuffix(name, *fn) {
+			f.WriteTo(os.Stdout)
+		}
+	}
+	return 0
 }
